@@ -3,6 +3,7 @@ CONSTANTS
   Subs = {1, 2}
   Amounts = {1, 2}
   Funds <- FundsSmall
+  GrantSets <- NoGrants
   NativeMetas = {1}
   SpecialIds = {1, 2, 3, 4}
   MaxOps = 6
@@ -12,5 +13,5 @@ NEXT NextR
 VIEW MCView
 CONSTRAINT Constr
 INVARIANTS TypeOK SupplyLedger BalancesBackSupply NamespaceOK NonFactoryUntouched
-PROPERTIES PA_OnlyAdminActs PA_OwnBalanceOnly PA_AdminHandover PA_CreateNamespace PA_MetadataByAdmin PA_FailureIsNoop
+PROPERTIES PA_OnlyAdminActs PA_OwnBalanceOnly PA_AdminHandover PA_CreateNamespace PA_MetadataByAdmin PA_FailureIsNoop PA_FeeFromCreator PA_ReimportPreserves
 CHECK_DEADLOCK FALSE
